@@ -542,10 +542,17 @@ def np_add_outer(ex, st, a, b, **kw):
     return ArrayVal((a.shape[0], b.shape[0]), lambda i, j: s_add(a.get(i), b.get(j)), join_dtype(a.dtype, b.dtype))
 
 
-def np_flip(ex, st, a, **kw):
+def np_flip(ex, st, a, axis=None, **kw):
     a = as_array(st, a)
-    n = a.shape[0]
-    return ArrayVal(a.shape, lambda i, *r: a.get(s_sub(s_sub(n, 1), i), *r), a.dtype)
+    if axis is None or (axis == 0 and a.ndim >= 1):
+        if a.ndim != 1 and axis is None:
+            raise Unsupported('np.flip of an n-d array without axis')
+        n = a.shape[0]
+        return _new_buffer(st, ArrayVal(a.shape, lambda i, *r: a.get(s_sub(s_sub(n, 1), i), *r), a.dtype), 'flip')
+    if a.ndim == 2 and axis in (1, -1):
+        m = a.shape[1]
+        return _new_buffer(st, ArrayVal(a.shape, lambda i, c: a.get(i, s_sub(s_sub(m, 1), c)), a.dtype), 'flip')
+    raise Unsupported('np.flip pattern')
 
 
 EXP = z3.Function('EXP', z3.RealSort(), z3.RealSort())
